@@ -2,6 +2,7 @@ package c09
 
 import (
 	"fmt"
+	"math"
 	"sort"
 	"testing"
 
@@ -63,6 +64,28 @@ func valid(c workCase) bool {
 	if nils > 1 || len(c.Items) > len(c.Succ) {
 		return false
 	}
+	for i, k := range c.Items {
+		if k != "nan" {
+			continue
+		}
+		// not equal to itself, so never recognised as a duplicate: keep "exactly once" meaningful by adding it once only
+		adds := 0
+		for _, x := range c.Initial {
+			if x == i {
+				adds++
+			}
+		}
+		for _, ss := range c.Succ {
+			for _, x := range ss {
+				if x == i {
+					adds++
+				}
+			}
+		}
+		if adds != 1 || len(c.Succ[i]) != 0 {
+			return false
+		}
+	}
 	for _, i := range c.Initial {
 		if i < 0 || i >= len(c.Succ) {
 			return false
@@ -89,9 +112,17 @@ func itemVal(c workCase, i int) any {
 			return fmt.Sprintf("item-%d", i)
 		case "struct":
 			return itemKey{i}
+		case "nan":
+			// an item that is not equal to itself (a measurement whose ratio was 0/0): every Add of it adds a distinct item
+			return nanKey{N: i, F: math.NaN()}
 		}
 	}
 	return i
+}
+
+type nanKey struct {
+	N int
+	F float64
 }
 
 func itemIndex(c workCase, x any) int {
@@ -110,6 +141,8 @@ func itemIndex(c workCase, x any) int {
 		fmt.Sscanf(v, "item-%d", &i)
 		return i
 	case itemKey:
+		return v.N
+	case nanKey:
 		return v.N
 	}
 	return -1
@@ -299,6 +332,9 @@ func genGraph(t *rapid.T, c *workCase) {
 	c.N = rapid.IntRange(1, 6).Draw(t, "n")
 	// up to 8 items queued before Do (more than n: the start-up of the runners overlaps with Adds made by the first calls of f)
 	c.Initial = rapid.SliceOfN(rapid.IntRange(0, items-1), 1, 8).Draw(t, "initial")
+	if rapid.IntRange(0, 11).Draw(t, "empty") == 7 {
+		c.Initial = nil // Do on a Work nothing was ever added to: returns at once, f is never called
+	}
 	for i := 0; i < items; i++ {
 		c.Succ = append(c.Succ, rapid.SliceOfN(rapid.IntRange(0, items-1), 0, 3).Draw(t, "succ"))
 		c.Yields = append(c.Yields, rapid.IntRange(0, 3).Draw(t, "yields"))
@@ -330,6 +366,27 @@ func genGraph(t *rapid.T, c *workCase) {
 				k = "nil"
 			}
 			c.Items = append(c.Items, k)
+		}
+		if rapid.IntRange(0, 3).Draw(t, "hasnan") == 1 {
+			// leaves that are added exactly once may be values that are not equal to themselves
+			for i := 0; i < items; i++ {
+				adds := 0
+				for _, x := range c.Initial {
+					if x == i {
+						adds++
+					}
+				}
+				for _, ss := range c.Succ {
+					for _, x := range ss {
+						if x == i {
+							adds++
+						}
+					}
+				}
+				if adds == 1 && len(c.Succ[i]) == 0 && c.Items[i] != "nil" {
+					c.Items[i] = "nan"
+				}
+			}
 		}
 	}
 }
@@ -372,6 +429,8 @@ type exCase struct {
 }
 
 var smallGraphs = []workCase{
+	{Initial: nil, Succ: [][]int{{}}}, // nothing added before Do
+	{Initial: []int{0, 1}, Succ: [][]int{{2}, {}, {}}, Items: []string{"int", "nan", "nan"}},    // items that are not equal to themselves
 	{Initial: []int{0}, Succ: [][]int{{}}},                                                      // single item
 	{Initial: []int{0}, Succ: [][]int{{1}, {}}},                                                 // chain of 2
 	{Initial: []int{0}, Succ: [][]int{{1}, {2}, {}}},                                            // chain of 3
